@@ -2,7 +2,7 @@
 use crate::adv::*;
 use crate::common::*;
 use crate::pres::*;
-use credx::claim::ClaimData;
+use credx::claim::*;
 use credx::knox::short_group_sig_core::short_group_traits::*;
 use credx::knox::short_group_sig_core::{HiddenMessage, ProofMessage};
 use credx::presentation::*;
@@ -212,6 +212,12 @@ fn suite_run<S: ShortGroupSignatureScheme + 'static>(em: &mut Emitter, base: &mu
                     }
                     if variant == "verenc+scalar" {
                         let ds = call_opt(|| v.decrypt_scalar(&sk));
+                        if !random_gen {
+                            em.op(format!("ve.scalar {}", hexs(&m.to_be_bytes())), match &ds {
+                                Out::Ok(s) => sc_hex(s),
+                                o => o.class().to_string(),
+                            });
+                        }
                         match ds {
                             Out::Ok(s) if s == m => em.count("decrypt_scalar:ok"),
                             Out::Ok(_) => em.violation("c10:decrypt-scalar-wrong", format!("{}: decrypt_scalar returned another scalar (claim {})", suite, ci), replay.clone()),
@@ -292,7 +298,12 @@ fn suite_run<S: ShortGroupSignatureScheme + 'static>(em: &mut Emitter, base: &mu
                             if acc {
                                 for pr in q2.proofs.values() {
                                     if let PresentationProofs::VerifiableEncryption(v) = pr {
-                                        match call_opt(|| v.decrypt_scalar(&sk)) {
+                                        let got = call_opt(|| v.decrypt_scalar(&sk));
+                                        em.op(format!("ve.scalar {}", hexs(&plus_r_bytes(&m))), match &got {
+                                            Out::Ok(s) => sc_hex(s),
+                                            o => o.class().to_string(),
+                                        });
+                                        match got {
                                             Out::Ok(s) if s == m => {}
                                             _ => em.violation("c10:noncanonical-bytes-not-decryptable", format!("{}: a proof decomposing the scalar into the bytes of m + r is accepted but decrypt_scalar does not return m", suite), replay.clone()),
                                         }
@@ -332,11 +343,95 @@ fn suite_run<S: ShortGroupSignatureScheme + 'static>(em: &mut Emitter, base: &mu
     }
 }
 
+/// scalar decryption searches every byte value: claims whose 32-byte encodings cover all 256 values
+/// (incl. 0xff: negative numbers, scalars just below the group order)
+fn byte_coverage<S: ShortGroupSignatureScheme + 'static>(em: &mut Emitter, rng: &mut Rng, suite: &str) {
+    let mut values: Vec<(String, usize, ClaimData)> = vec![];
+    // position 0 stays 0 (below the modulus); positions 1..31 enumerate 0..=255 over nine scalars
+    let mut next = 0u16;
+    for j in 0..9 {
+        let mut b = [0u8; 32];
+        for i in 1..32 {
+            b[i] = (next % 256) as u8;
+            next += 1;
+        }
+        let sc = Option::<Scalar>::from(Scalar::from_be_bytes(&b)).unwrap();
+        values.push((format!("bytes-{}", j), 3, ScalarClaim::from(sc).into()));
+    }
+    values.push(("minus-one".into(), 2, NumberClaim::from(-1).into()));
+    values.push(("i64-min".into(), 2, NumberClaim::from(isize::MIN).into()));
+    values.push(("r-minus-1".into(), 3, ScalarClaim::from(-Scalar::ONE).into()));
+    values.push(("255".into(), 3, ScalarClaim::from(Scalar::from(255u64)).into()));
+    for (vi, (name, ci, claim)) in values.into_iter().enumerate() {
+        if !em.thorough() && vi % 2 == 1 && vi < 9 {
+            continue;
+        }
+        let mut mix = Mix { n_creds: 1, n_claims: 5, age: 30, ..Default::default() };
+        mix.disclosed = vec![vec![]];
+        mix.verenc = Some((ci, true));
+        let mut scn = Scn::<S>::build(rng, &mix);
+        let mut claims = scn.bundles[0].credential.claims.clone();
+        claims[0] = RevocationClaim::from(format!("cov-{}", vi)).into();
+        claims[ci] = claim.clone();
+        let b = match scn.issuers[0].sign_credential(&claims) {
+            Ok(b) => b,
+            Err(_) => continue,
+        };
+        scn.credentials.insert(scn.sig_ids[0].clone(), b.credential.clone().into());
+        let stmts: Vec<Statements<S>> = scn
+            .schema
+            .statements
+            .values()
+            .map(|s| match s {
+                Statements::Signature(ss) => {
+                    let mut t = (**ss).clone();
+                    t.issuer = b.issuer.clone();
+                    t.into()
+                }
+                o => o.clone(),
+            })
+            .collect();
+        scn.schema = PresentationSchema::new_with_id(&stmts, &scn.schema.id);
+        scn.bundles[0] = b;
+        let sk = scn.issuers[0].verifiable_decryption_key.clone();
+        let m = claim.to_scalar();
+        em.oracle_case(&format!("{} byte-coverage {}", suite, name));
+        let replay = scn.replay(json!({"suite": suite, "value": name, "scalar": sc_hex(&m)}));
+        match scn.create() {
+            Out::Ok(p) if scn.verify(&p).is_ok() => {
+                for pr in p.proofs.values() {
+                    if let PresentationProofs::VerifiableEncryption(v) = pr {
+                        let got = call_opt(|| v.decrypt_scalar(&sk));
+                        em.op(format!("ve.scalar {}", hexs(&m.to_be_bytes())), match &got {
+                            Out::Ok(s) => sc_hex(s),
+                            o => o.class().to_string(),
+                        });
+                        match got {
+                            Out::Ok(s) if s == m => em.count("decrypt_scalar:ok"),
+                            Out::Ok(_) => em.violation("c10:decrypt-scalar-wrong", format!("{}: decrypt_scalar returned another scalar ({})", suite, name), replay.clone()),
+                            Out::Err => em.violation("c10:decrypt-scalar-failed", format!("{}: decrypt_scalar failed on an accepted honest proof of a value with unusual bytes ({})", suite, name), replay.clone()),
+                            Out::Panic(msg) => em.violation("c10:decrypt-scalar-panic", format!("{}: decrypt_scalar panicked: {}", suite, msg), replay.clone()),
+                        }
+                    }
+                }
+            }
+            _ => em.violation("c10:honest-rejected", format!("{}: honest decryptable presentation of value {} not created / not accepted", suite, name), replay.clone()),
+        }
+    }
+}
+
 pub fn gen_c10(em: &mut Emitter, rng: &mut Rng) {
     em.rule = "both encryption statements on every claim type, with and without scalar decryption, G1 and random message generators: honest runs \
                (accepted; decrypt = m·M; decrypt_scalar = m; decrypt_and_verify = the signed claim; stable pseudonym per generator); deviating holders: \
                decryptable part omitted under the verifier's transcript (steered prover), a hand-written holder decomposing the scalar into the bytes of \
-               m + r or of another value, generator field swapped in the encrypt-and-decrypt proof".into();
+               m + r or of another value, generator field swapped in the encrypt-and-decrypt proof; scalar decryption of values whose encodings cover all 256 byte values (negative numbers, r-1, 255)".into();
     suite_run::<Bbs>(em, rng, "bbs");
     suite_run::<Ps>(em, rng, "ps");
+    let base = 2 * em.n(10, 100);
+    if em.mine(base) {
+        byte_coverage::<Bbs>(em, &mut rng.sub(7001), "bbs");
+    }
+    if em.mine(base + 1) {
+        byte_coverage::<Ps>(em, &mut rng.sub(7002), "ps");
+    }
 }
